@@ -942,7 +942,7 @@ Proof.
     destruct (Z.eqb_spec (r_cur r) KSW_NO_KEY) as [E|E].
     + apply IH. intros x Hx. apply H. right. exact Hx.
     + destruct Hcur as [E'|[kc Hkc]]; [contradiction|]. rewrite Hkc.
-      apply IH. intros x Hx. apply H. right. exact Hx.
+      destruct (N.eqb (k_state kc) KSW_DESTROYED); apply IH; intros x Hx; apply H; right; exact Hx.
 Qed.
 
 Theorem wf_list_ok st :
